@@ -1,5 +1,5 @@
 (* Proofs/ParamProofs.v — proofs about Expand/Param.v against Expand/ParamSpec.v. *)
-From Verif Require Import Base.Str Expand.Param Expand.ParamSpec.
+From Verif Require Import Base.Str Expand.Param Expand.ParamSpec Proofs.ParamMatchProofs.
 From Coq Require Import ZifyN ZifyNat ZifyBool.
 Open Scope N_scope.
 
@@ -375,5 +375,79 @@ Section Theorems.
     - reflexivity.
     - cbn [is_set negb cur]. destruct s as [|c s]; [exfalso; apply Hne; reflexivity|].
       cbn [cur] in Hna. cbn [bash_indirect lift obind join]. rewrite (var_string_value _ Hna). reflexivity.
+  Qed.
+
+  (* ------------------------------------------------------------------ removal and case conversion on a scalar subject *)
+
+  Definition is_suffix_op (op : expop) : bool := match op with RemSS | RemLS => true | _ => false end.
+  Definition is_prefix_op (op : expop) : bool := match op with RemSP | RemLP => true | _ => false end.
+  Definition is_longest_op (op : expop) : bool := match op with RemLS | RemLP => true | _ => false end.
+
+  Lemma pat_ok_in_model : forall p a, pat_atoms p = PatOk a -> pat_in_model p = true.
+  Proof. intros p a H. unfold pat_in_model. rewrite H. reflexivity. Qed.
+
+  Lemma remove_suffix_param : forall e name i op w v a,
+    is_params_name name = false ->
+    is_list_idx i = false ->
+    bash_value (env_get e name) i = PVal v ->
+    is_suffix_op op = true ->
+    pat_atoms (pattern_of w) = PatOk a ->
+    exists r, pexp_eval e (mkP name i (PExp op w)) = OOk (r, None) /\
+              is_suffix_removal (is_longest_op op) (toks a) (cur v) r.
+  Proof.
+    intros e name i op w v a Hn Hl Hv Hop Hp.
+    rewrite (param_exp_scalar upper lower quote e name i _ v Hn Hl Hv). cbv zeta.
+    destruct op; try discriminate Hop; unfold exp_arg; cbn [is_pat_op];
+      rewrite (pat_ok_in_model _ _ Hp); cbn [negb rem_case_elems remove_elems map opt_out obind join];
+      eexists; (split; [reflexivity|]).
+    - apply (remove_suffix_correct (cur v) (pattern_of w) a true Hp).
+    - apply (remove_suffix_correct (cur v) (pattern_of w) a false Hp).
+  Qed.
+
+  Lemma remove_prefix_param : forall e name i op w v a,
+    is_params_name name = false ->
+    is_list_idx i = false ->
+    bash_value (env_get e name) i = PVal v ->
+    is_prefix_op op = true ->
+    pat_atoms (pattern_of w) = PatOk a ->
+    exists r, pexp_eval e (mkP name i (PExp op w)) = OOk (r, None) /\
+      ((exists pre, cur v = pre ++ r /\ pmatch (toks a) pre) \/
+       (r = cur v /\ forall pre suf, cur v = pre ++ suf -> ~ pmatch (toks a) pre)).
+  Proof.
+    intros e name i op w v a Hn Hl Hv Hop Hp.
+    rewrite (param_exp_scalar upper lower quote e name i _ v Hn Hl Hv). cbv zeta.
+    destruct op; try discriminate Hop; unfold exp_arg; cbn [is_pat_op];
+      rewrite (pat_ok_in_model _ _ Hp); cbn [negb rem_case_elems remove_elems map opt_out obind join];
+      eexists; (split; [reflexivity|]).
+    - apply (remove_prefix_sound (cur v) (pattern_of w) a true Hp).
+    - apply (remove_prefix_sound (cur v) (pattern_of w) a false Hp).
+  Qed.
+
+  Definition case_conv_of (op : expop) : option ((N -> N) * bool) :=
+    match op with
+    | UpFirst => Some (upper, false) | UpAll => Some (upper, true)
+    | LowFirst => Some (lower, false) | LowAll => Some (lower, true)
+    | _ => None
+    end.
+
+  (* each character (the first only for ^ and ,) that the pattern matches is converted; an omitted
+     pattern matches every character *)
+  Lemma case_param : forall e name i op w v a conv all,
+    is_params_name name = false ->
+    is_list_idx i = false ->
+    bash_value (env_get e name) i = PVal v ->
+    case_conv_of op = Some (conv, all) ->
+    pat_atoms (pattern_of w) = PatOk a ->
+    exists m : N -> bool,
+      (forall c, m c = true <-> (a = [] \/ pmatch (toks a) [c])) /\
+      pexp_eval e (mkP name i (PExp op w)) = OOk (bash_case conv all m (cur v), None).
+  Proof.
+    intros e name i op w v a conv all Hn Hl Hv Hop Hp.
+    exists (match_char a). split; [intros c; apply match_char_spec|].
+    rewrite (param_exp_scalar upper lower quote e name i _ v Hn Hl Hv). cbv zeta.
+    destruct op; try discriminate Hop; unfold exp_arg; cbn [is_pat_op];
+      rewrite (pat_ok_in_model _ _ Hp); cbn [negb rem_case_elems];
+      rewrite (case_conv_correct _ _ _ a _ Hp); cbn [map opt_out obind join];
+      simpl in Hop; inversion Hop; subst; reflexivity.
   Qed.
 End Theorems.
